@@ -12,6 +12,7 @@ class KEnv:
     def __init__(self, tag='', pec=False):
         self.nx, self.ny, self.nz = z3.Ints(f'{tag}nx {tag}ny {tag}nz')
         self.n = (self.nx, self.ny, self.nz)
+        self.pec = pec
         self.hyps = [self.nx >= 2, self.ny >= 2, self.nz >= 2]
         n = self.n
         mk = lambda name, shape: sx.ArrObj(name, shape)
